@@ -160,7 +160,19 @@ func tryReplayOne(p *Prog, o *Obligation, replayFile, repo string) (bool, any) {
 		}
 		src = plan.render(skip)
 	}
-	info := map[string]any{"attempted": true, "model_from": how, "reproduced_on_real_code": failed, "output": out, "clauses_checked": len(plan.checks) - len(skip)}
+	reqAll := plan.reqUntranslated == 0
+	for ci := range skip {
+		if ci < plan.nPre {
+			reqAll = false
+		}
+	}
+	if failed && !reqAll {
+		// a failure under an input that may violate a precondition the test could not check proves nothing
+		failed = false
+		out = "(the real code failed on the constructed input, but a precondition of the function could not be checked at run time, so the input is not reported)\n" + out
+	}
+	info := map[string]any{"attempted": true, "model_from": how, "reproduced_on_real_code": failed, "output": out, "clauses_checked": len(plan.checks) - len(skip),
+		"all_preconditions_checked_at_run_time": reqAll}
 	if !failed && strings.Contains(out, "[build failed]") {
 		info["note"] = "generated test did not compile"
 	}
